@@ -133,7 +133,7 @@ class Expiration(Stream):
                 expired.add(f[1])     # expiry forced to "now" while the timers are lost: the lease stays, expired
             o = _obs(impl)
             if "st" in o:
-                if f[0] == "revoke" and f[2] == "0" and not frozen and res == "ok" and f[1] in stored and f[1] not in _set(o.get("non")):
+                if ((f[0] == "revoke" and f[2] == "0") or f[0] == "revokeloadfault") and not frozen and res == "ok" and f[1] in stored and f[1] not in _set(o.get("non")):
                     # forced expiry: at quiescence the lease is gone or irrevocable
                     st_now = {x.rstrip("x"): x.endswith("x") for x in ([] if o["st"] == "-" else o["st"].split(","))}
                     if f[1] in st_now and not st_now[f[1]]:
